@@ -320,7 +320,7 @@ Definition write_keyed (strE stmE : bytes -> res bytes) (to_os : bool) (io : iob
                                                       not reachable through writeIndirectObject when a key is set *)
   end.
 
-(* the same dispatch with ctx.EncKey == nil: nothing is enciphered; the lazy fast path copies the member *)
+(* the same dispatch with ctx.EncKey == nil: nothing is enciphered *)
 Definition write_plain (to_os : bool) (io : iobj) : res emitted :=
   match io with
   | IObj o =>
@@ -332,17 +332,18 @@ Definition write_plain (to_os : bool) (io : iobj) : res emitted :=
   | ILazy o => Ok (EmTop o)
   end.
 
-(* writeIndirectObject: deref = ctx.Dereference when a key is set (an undecoded object-stream member is
-   decoded first and then takes the normal path), ctx.DereferenceForWrite otherwise *)
-Definition deref_for_write (keyed : bool) (io : iobj) : iobj :=
+(* writeIndirectObject: o, err := ctx.Dereference(ir) — an undecoded object-stream member is always
+   decoded first (keyed or not) and then takes the normal path; the ILazy cases of write_keyed /
+   write_plain (writeObjectGeneric's LazyObjectStreamObject case) are no longer reachable through it *)
+Definition deref_for_write (io : iobj) : iobj :=
   match io with
-  | ILazy o => if keyed then IObj o else io
+  | ILazy o => IObj o
   | _ => io
   end.
 
 Definition write_iobj (keyed : bool) (strE stmE : bytes -> res bytes) (to_os : bool) (io : iobj) : res emitted :=
-  if keyed then write_keyed strE stmE to_os (deref_for_write true io)
-  else write_plain to_os (deref_for_write false io).
+  if keyed then write_keyed strE stmE to_os (deref_for_write io)
+  else write_plain to_os (deref_for_write io).
 
 (* Reader: resolveObject (dict()/decryptDeepObject) and saveDecodedStreamContent/decryptStreamContent.
    emd = ctx.E.Emd.  A member of an object stream is parsed from the decrypted stream data and is not
